@@ -773,6 +773,10 @@ def run_all(run, specs, budget_s, threads=3, batch_size=8, batch_wait=12):
             n += 1
             if "exception" in r:
                 run.tally("pipeline", "exception:" + r["exception"]["type"])
+                if len(run.cov.setdefault("pipeline_exceptions", [])) < 8:
+                    run.cov["pipeline_exceptions"].append({"spec": spec_key(r["spec"]), "exception": {
+                        k: str(v)[:300] for k, v in r["exception"].items() if k != "traceback"},
+                        "stages_done": sorted(r.get("stages", {}))})
             elif "erase" not in r["stages"]:
                 run.tally("pipeline", "cutoff:" + str(r.get("cutoff")))
             else:
